@@ -1074,3 +1074,46 @@ def r_waitfor_coverage(prog, rep):
     # all scanning rules' records are visited
     ok = any(fr.get("k") == "forrange" and expr_str(fr.child("range")) == "ruleInfos" for fr in h.nodes) and bool(h.calls("RuleInfo::isScanning"))
     r.check(ok, "findCycle|all-scanning-rules", "", "cycle finder does not visit the scan record of every scanning rule", h)
+
+
+def r_epoch_persist(prog, rep):
+    """shared by C01, C03, C04, C05: results committed by a failed/cancelled build are stamped with the new epoch;
+    if that epoch is not persisted too, a restarted engine re-uses it and the strict staleness test misses changes."""
+    f = efn(prog, "build")
+    bf = BranchFacts(f, kill="assign")
+    ex = f.calls(ENGINE + "::executeTasks")
+    sci = f.calls("BuildDB::setCurrentIteration")
+    if len(ex) != 1 or len(sci) != 1:
+        raise AnalysisBroken("build(): executeTasks=%d setCurrentIteration=%d" % (len(ex), len(sci)))
+    r = rep.rule("R-EPOCH-PERSIST",
+                 "on every path from the epoch increment to the end of build() the current epoch is written to the database when "
+                 "one is attached — also when the work loop failed or was cancelled", floor=3)
+    inc = [n for n in f.nodes if n.get("k") == "un" and n["op"] == "++" and expr_str(n.child("e")) == "currentEpoch"]
+    if len(inc) != 1:
+        raise AnalysisBroken("build(): %d epoch increments" % len(inc))
+    a = arg_nodes(sci[0])
+    r.check(expr_str(core(a[0])) == "currentEpoch", "build|persists-current-epoch", "", "setCurrentIteration is given %s" % expr_str(a[0]), f, sci[0])
+    st = facts_at(bf, sci[0])
+    r.check(st == frozenset(x for x in st if x[0] != "success") and has(st, "db", True), "build|epoch-write-unconditional", "%s" % sorted(st),
+            "the epoch write depends on %s" % sorted(st), f, sci[0])
+    # every path from ++epoch to EXIT passes the `if (db)` that guards the write
+    gblk = None
+    for b in f.blocks.values():
+        c = b.cond()
+        if c is not None and expr_str(core(b.effective_cond())).startswith("db") and b.term["cls"] == "IfStmt":
+            s_true = b.succs[0]
+            if s_true is not None and cfg.path_exists(f, (s_true, -1), lambda p, e, sp=cfg.pos_of(f, sci[0]): p == sp) is not None and \
+                    cfg.dominated_by(f, cfg.pos_of(f, sci[0]), lambda p, e, tp=cfg.term_pos(f, b.id): p == tp)[0]:
+                # innermost such guard
+                if gblk is None or cfg.path_exists(f, cfg.term_pos(f, gblk.id), lambda p, e, tp=cfg.term_pos(f, b.id): p == tp) is not None:
+                    gblk = b
+    ok = gblk is not None
+    if ok:
+        tp = cfg.term_pos(f, gblk.id)
+        w = cfg.path_exists(f, cfg.pos_of(f, inc[0]), cfg.is_exit, avoid=lambda p, e: p == tp)
+        ok = w is None
+    r.check(ok, "build|epoch-written-on-every-path", "", "a path from the epoch increment leaves build() without passing the epoch write", f, sci[0])
+    # nothing between the work loop and the epoch write can return
+    w = cfg.path_exists(f, cfg.pos_of(f, ex[0]), cfg.is_exit, avoid=lambda p, e, tp=cfg.term_pos(f, gblk.id) if gblk else None: p == tp)
+    r.check(w is None, "build|no-exit-between-work-and-epoch-write", "", "build() can return between the work loop and the epoch write", f)
+
